@@ -326,6 +326,7 @@ func designateNeoFSAlphabet(ctx, prm) (err)
   ensures [C13] forall j Int {xcalls("rolemgmt.Contract.DesignateAsRoleTransaction")[j]} :: old(xcalls("rolemgmt.Contract.DesignateAsRoleTransaction")).len <= j && j < xcalls("rolemgmt.Contract.DesignateAsRoleTransaction").len
         ==> xcalls("rolemgmt.Contract.DesignateAsRoleTransaction")[j] == ev_rolemgmt_Contract_DesignateAsRoleTransaction(16, prm.committee)
   ensures [C13] xcalls("notary.Actor.Notarize").len - old(xcalls("notary.Actor.Notarize")).len == xcalls("rolemgmt.Contract.DesignateAsRoleTransaction").len - old(xcalls("rolemgmt.Contract.DesignateAsRoleTransaction")).len
+  // (that every role check of the loop asks about NeoFSAlphabet is the third loop invariant: checked for every iteration)
   // success is reported only after a role check that answered yes
   ensures [C13] isnil(err) ==> xcalls("checkRole").len > old(xcalls("checkRole")).len && roleOK(xcalls("checkRole").len - 1)
   // idempotence: nothing is sent by a call whose first role check finds the role designated
@@ -335,6 +336,9 @@ func designateNeoFSAlphabet(ctx, prm) (err)
     invariant forall j Int {xcalls("rolemgmt.Contract.DesignateAsRoleTransaction")[j]} :: old(xcalls("rolemgmt.Contract.DesignateAsRoleTransaction")).len <= j && j < xcalls("rolemgmt.Contract.DesignateAsRoleTransaction").len
         ==> xcalls("rolemgmt.Contract.DesignateAsRoleTransaction")[j] == ev_rolemgmt_Contract_DesignateAsRoleTransaction(16, prm.committee)
     invariant xcalls("notary.Actor.Notarize").len - old(xcalls("notary.Actor.Notarize")).len == xcalls("rolemgmt.Contract.DesignateAsRoleTransaction").len - old(xcalls("rolemgmt.Contract.DesignateAsRoleTransaction")).len
+    invariant xcalls("rolemgmt.ContractReader.GetDesignatedByRole").len >= old(xcalls("rolemgmt.ContractReader.GetDesignatedByRole")).len
+    invariant forall j Int {xcalls("rolemgmt.ContractReader.GetDesignatedByRole")[j]} :: old(xcalls("rolemgmt.ContractReader.GetDesignatedByRole")).len <= j && j < xcalls("rolemgmt.ContractReader.GetDesignatedByRole").len
+        ==> exists h Int :: xcalls("rolemgmt.ContractReader.GetDesignatedByRole")[j] == ev_rolemgmt_ContractReader_GetDesignatedByRole(16, h)
     invariant xcalls("rolemgmt.Contract.DesignateAsRoleTransaction").len >= old(xcalls("rolemgmt.Contract.DesignateAsRoleTransaction")).len
     invariant xcalls("checkRole").len == old(xcalls("checkRole")).len ==> xcalls("notary.Actor.Notarize").len == old(xcalls("notary.Actor.Notarize")).len
     invariant xcalls("checkRole").len > old(xcalls("checkRole")).len ==> !roleOK(old(xcalls("checkRole")).len)
